@@ -48,6 +48,11 @@ def s_return(ctx):
         I.models[igi] = lambda interp, v=v: is_input(v)
         v.fields["is_graph_input"] = igi
         I.call(I.getattr(self, "_bind"), [v.fields["name"], I.call(values.SymbolValue, [v, CM.real_info()])])
+    # `y = x; x = x + 1`: the Python name of an input may since have been rebound to a computed value, while another
+    # Python variable still denotes the input value itself
+    if ctx.choose(2, "the python name of input 0 was rebound to a computed value") == 1:
+        I.call(I.getattr(self, "_bind"), ["in0", I.call(values.SymbolValue, [local, CM.real_info()])])
+        I.call(I.getattr(self, "_bind"), ["alias_of_in0", I.call(values.SymbolValue, [inputs[0], CM.real_info()])])
     choices = []
 
     def m_translate_expr(interp, slf, node, target=None):
